@@ -1,12 +1,197 @@
-(* C09 (supervisor core) - INTERIM statement file: the full simulation theorem for mon_C09 is being
-   proved in Sup/RelC09.v; until it lands, this file states what is already machine-checked for every
-   accepted history of the Sup model: the observer's picture (on which the monitor holds_C09 is
-   evaluated) agrees with the model state. *)
+(* C09 Reported state is truthful: status transitions, is_running, exit code.
+   This file contains only the property statements; every proof is `exact <lemma>` (or vm_compute on a
+   concrete history).  The model is Sup/Model.v (accept = replay of a recorded history of trace points),
+   the monitor is Sup/Monitors.v: mon_C09 / holds_C09.
+
+   WHAT THE MONITOR CHECKS (holds_C09 cs evs = true means: at every position of the history evs, on the
+   facts the observer accumulated from the events BEFORE that position):
+   (a1) mon_legal   at every status write  EState i s0 : the pair (status reported for the name of i so far, s0)
+                    is in the table `legal` (Pending -> Running/Launching/Skipped/Terminating/Error, Running ->
+                    Restarting/Terminating/Completed/Error, Restarting -> Running/..., Terminating ->
+                    Completed/Error/Restarting/Skipped; terminal statuses have no successor), or s0 = Pending is
+                    written for a never-launched instance that was created by StartProcess/RestartProcess, or
+                    Pending is written over Pending;
+   (a2) mon_term    at every status write of Completed / Skipped / Error: no command of that instance is alive
+                    (every launched command has exited);
+   (b)  mon_launch  at every successful launch (ELaunch true): the status reported for the name is a running
+                    status (Running / Launching / Launched);
+   (c)  mon_code    at every write of the reported exit code (EExitCode c): c is the exit code with which the
+                    instance's last command exited (the last ECmdExit of that instance).
+   mon_C09 is exactly the conjunction of the four (C09_monitor_split).
+
+   WHAT IS PROVED
+   * (a2) and (c): for ALL accepted histories, no window hypothesis, no hypothesis on the configuration.
+   * (a1) and (b): FALSE of the model without hypotheses, also outside all known windows (theorems C09_refuted, C09_refuted_stale_stop, C09_refuted_creation, C09_refuted_nopending):
+     the model lets a stop execution write Terminating at any time after its check (also a stop caused by a
+     fatal readiness probe, which raises no window flag) and does not tie instance creation / the initial
+     Pending write to a spawning context.  They are proved for the histories that (1) stay out of the
+     duplicate-instance window w_dup (F25) and (2) satisfy the decidable assumption monitor `asm`
+     (C09_assumptions):
+       - Terminating is only written over a running status while a command of that instance is alive and
+         not by the stopped-while-Pending path (i.e. the stop's check-then-act gap was not hit: this
+         excludes the windows F26 late, F20/F21 commit, F37 sdlag, F38 zombie, F32 stale as far as status
+         writes are concerned, and the internal stop of a not yet launched process);
+       - an instance created outside StartProcess/RestartProcess (i.e. by Run) is the first instance of a
+         name that is not disabled;
+       - the goroutine of an instance begins only after Pending was written for it. *)
 From Coq Require Import List ZArith NArith Bool.
 From PC.Base Require Import Assoc.
-From PC.Sup Require Import Model Monitors RelCore Agreement RelC02.
+From PC.Sup Require Import Model Monitors Sim LemC09 RelC09 RelC09b.
+Import ListNotations.
 
-Theorem C09_observer_agrees_with_model : forall cs ord evs s,
-  accept (init cs ord) evs = Some s -> Rc cs s (final_obs cs evs).
-Proof. exact sup_agreement. Qed.
-Print Assumptions C09_observer_agrees_with_model.
+(* the monitor is the conjunction of its four clauses *)
+Theorem C09_monitor_split : forall cs o e, mon_C09 cs o e = mon_a o e && mon_b o e && mon_c o e.
+Proof. exact mon_C09_split. Qed.
+Print Assumptions C09_monitor_split.
+
+Theorem C09_holds_split : forall cs evs,
+  holds_C09 cs evs = holds' cs mon_legal evs && holds' cs mon_term evs && holds' cs mon_launch evs && holds' cs mon_code evs.
+Proof. exact holds_C09_split. Qed.
+Print Assumptions C09_holds_split.
+
+(* (c) the reported exit code is the exit code of the instance's last command: every accepted history *)
+Theorem C09_exit_code : forall cs ord evs s,
+  accept (init cs ord) evs = Some s -> holds' cs mon_code evs = true.
+Proof. exact C09_code_holds. Qed.
+Print Assumptions C09_exit_code.
+
+(* ... read position by position: whenever thread th (running instance i) writes exit code c, the last
+   command of i that exited, exited with c *)
+Theorem C09_exit_code_declarative : forall cs ord evs s, accept (init cs ord) evs = Some s ->
+  forall p th c i, nth_error evs p = Some (th, EExitCode c) ->
+    get th (o_th (obs_before cs evs p)) = Some i ->
+    o_code (oi_get (obs_before cs evs p) i) = Some c.
+Proof. exact C09_code_declarative. Qed.
+Print Assumptions C09_exit_code_declarative.
+
+(* (a2) Completed / Skipped / Error is reported only when no command of the instance is alive *)
+Theorem C09_terminal_not_alive : forall cs ord evs s,
+  accept (init cs ord) evs = Some s -> holds' cs mon_term evs = true.
+Proof. exact C09_term_holds. Qed.
+Print Assumptions C09_terminal_not_alive.
+
+Theorem C09_terminal_not_alive_declarative : forall cs ord evs s, accept (init cs ord) evs = Some s ->
+  forall p th i s0, nth_error evs p = Some (th, EState i s0) -> terminal s0 = true ->
+    o_alive (oi_get (obs_before cs evs p) i) = false.
+Proof. exact C09_term_declarative. Qed.
+Print Assumptions C09_terminal_not_alive_declarative.
+
+(* (a1) + (b): legal transitions and running status at launch, under the assumption monitor, outside w_dup *)
+Theorem C09_legal_and_launch_partial : forall cs ord evs s,
+  accept (init cs ord) evs = Some s -> C09_assumptions cs evs = true -> w_dup (final_obs cs evs) = false ->
+  holds' cs mon_legal evs = true /\ holds' cs mon_launch evs = true.
+Proof. exact C09_legal_launch_holds. Qed.
+Print Assumptions C09_legal_and_launch_partial.
+
+(* the whole monitor *)
+Theorem C09_main_partial : forall cs ord evs s,
+  accept (init cs ord) evs = Some s -> C09_assumptions cs evs = true -> w_dup (final_obs cs evs) = false ->
+  holds_C09 cs evs = true.
+Proof. exact C09_main_partial_lemma. Qed.
+Print Assumptions C09_main_partial.
+
+(* ---- the statement without hypotheses is false of the model, outside every known window ------------------ *)
+Open Scope N_scope.
+Definition conf_plain := mkConf [] PNo 0 0 false false false false false false false.
+Definition conf_probe := mkConf [] PNo 0 0 false false true false false false false.
+Definition conf_disabled := mkConf [] PNo 0 0 false false false false false false true.
+Definition conf_retry := mkConf [] POnFailure 1 0 false false false false false false false.
+
+(* a fatal readiness probe stops the process between "status := Running" and the launch: the command is
+   launched while Terminating is reported; no window flag is raised (the stop is internal, cancel = false) *)
+Definition refute_cs : amap pconf := [(1, conf_probe)].
+Definition refute_evs : list (tid * event) :=
+ [(0, EApiBegin OpRun); (0, ENewInst 1 1); (0, EState 1 SPending); (0, ERegAdd 1 1); (0, ESpawn 1 1); (0, ERunSpawned);
+  (1, EBegin 1); (1, ERunChecked false); (1, EStarted); (1, EState 1 SRunning);
+  (2, EProbe 1 false true); (2, EStopEnter 1 false); (2, EStopRunning 1); (2, EState 1 STerminating);
+  (1, ELaunch true)].
+
+Theorem C09_refuted : exists cs ord evs s,
+  accept (init cs ord) evs = Some s /\ any_window (final_obs cs evs) = false /\ holds_C09 cs evs = false.
+Proof.
+  exists refute_cs, false, refute_evs.
+  destruct (accept (init refute_cs false) refute_evs) as [s|] eqn:E; [|vm_compute in E; discriminate].
+  exists s. repeat split; vm_compute; reflexivity.
+Qed.
+Print Assumptions C09_refuted.
+
+(* instance creation is not tied to a spawning context in the model: any thread may create an instance of a
+   disabled process and write Pending over Disabled *)
+Theorem C09_refuted_creation : exists cs ord evs s,
+  accept (init cs ord) evs = Some s /\ any_window (final_obs cs evs) = false /\ holds_C09 cs evs = false.
+Proof.
+  exists [(1, conf_disabled)], false, [(0, ENewInst 1 1); (0, EState 1 SPending)].
+  destruct (accept (init [(1, conf_disabled)] false) [(0, ENewInst 1 1); (0, EState 1 SPending)]) as [s|] eqn:E;
+    [|vm_compute in E; discriminate].
+  exists s. repeat split; vm_compute; reflexivity.
+Qed.
+Print Assumptions C09_refuted_creation.
+
+(* the model does not force the initial Pending write: a restarted process goes Completed -> Running *)
+Definition nopending_evs : list (tid * event) :=
+ [(0, EApiBegin OpRun); (0, ENewInst 1 1); (0, EState 1 SPending); (0, ERegAdd 1 1); (0, ESpawn 1 1); (0, ERunSpawned);
+  (1, EBegin 1); (1, ERunChecked false); (1, EStarted); (1, EState 1 SRunning); (1, ELaunch true);
+  (9, ECmdExit 1 0%Z); (1, EWaitReturn 0%Z); (1, EExitCode 0%Z); (1, ERestartDecision false);
+  (1, EProcEnd 1 SCompleted); (1, EState 1 SCompleted); (1, EProcEnded 1 SCompleted); (1, ERunReturned 0%Z);
+  (1, EDoneAdd 1); (1, EInstDone); (1, EInstExit); (1, ERegDel 1); (1, EInstGone); (0, ERunReturn 0%Z); (0, EApiReturn true);
+  (3, EApiBegin (OpStart 1)); (3, ERegGet 1 None); (3, EStartChecked 1 false); (3, ENewInst 2 1); (3, ERegAdd 2 1);
+  (3, ESpawn 2 1); (3, EApiReturn true);
+  (4, EBegin 2); (4, ERunChecked false); (4, EStarted); (4, EState 2 SRunning)].
+Theorem C09_refuted_nopending : exists cs ord evs s,
+  accept (init cs ord) evs = Some s /\ any_window (final_obs cs evs) = false /\ holds_C09 cs evs = false.
+Proof.
+  exists [(1, conf_plain)], false, nopending_evs.
+  destruct (accept (init [(1, conf_plain)] false) nopending_evs) as [s|] eqn:E; [|vm_compute in E; discriminate].
+  exists s. repeat split; vm_compute; reflexivity.
+Qed.
+Print Assumptions C09_refuted_nopending.
+
+(* a stop execution keeps the instance it looked up: the old instance finishes, a successor of the same name
+   is started and reports Running, the stale stop reads the SHARED status, writes Terminating over it and the
+   successor launches under Terminating.  Only external stops, orderly creation, no window flag. *)
+Definition stale_evs : list (tid * event) :=
+ [(0, EApiBegin OpRun); (0, ENewInst 1 1); (0, EState 1 SPending); (0, ERegAdd 1 1); (0, ESpawn 1 1); (0, ERunSpawned);
+  (1, EBegin 1); (1, ERunChecked false); (1, EStarted); (1, EState 1 SRunning); (1, ELaunch true);
+  (2, EApiBegin (OpStop 1)); (2, ERegGet 1 (Some 1)); (2, EStopChecked 1 (Some 1));
+  (9, ECmdExit 1 0%Z); (1, EWaitReturn 0%Z); (1, EExitCode 0%Z); (1, ERestartDecision false);
+  (1, EProcEnd 1 SCompleted); (1, EState 1 SCompleted); (1, EProcEnded 1 SCompleted); (1, ERunReturned 0%Z);
+  (1, EDoneAdd 1); (1, EInstDone); (1, EInstExit); (1, ERegDel 1); (1, EInstGone); (0, ERunReturn 0%Z); (0, EApiReturn true);
+  (3, EApiBegin (OpStart 1)); (3, ERegGet 1 None); (3, EStartChecked 1 false); (3, ENewInst 2 1); (3, EState 2 SPending);
+  (3, ERegAdd 2 1); (3, ESpawn 2 1); (3, EApiReturn true);
+  (4, EBegin 2); (4, ERunChecked false); (4, EStarted); (4, EState 2 SRunning);
+  (2, ENoRestart 1); (2, EStopEnter 1 true); (2, EStopRunning 1); (2, EState 1 STerminating);
+  (4, ELaunch true)].
+Theorem C09_refuted_stale_stop : exists cs ord evs s,
+  accept (init cs ord) evs = Some s /\ any_window (final_obs cs evs) = false /\ holds_C09 cs evs = false.
+Proof.
+  exists [(1, conf_plain)], false, stale_evs.
+  destruct (accept (init [(1, conf_plain)] false) stale_evs) as [s|] eqn:E; [|vm_compute in E; discriminate].
+  exists s. repeat split; vm_compute; reflexivity.
+Qed.
+Print Assumptions C09_refuted_stale_stop.
+
+(* ---- non-vacuity: a 45-event accepted history (launch, failure, back-off, relaunch, API stop of the running
+   command, completion, Run returns) that satisfies every hypothesis of C09_main_partial ------------------- *)
+Definition example_cs : amap pconf := [(1, conf_retry)].
+Definition example_evs : list (tid * event) :=
+ [(0, EApiBegin OpRun); (0, ENewInst 1 1); (0, EState 1 SPending); (0, ERegAdd 1 1); (0, ESpawn 1 1); (0, ERunSpawned);
+  (1, EBegin 1); (1, ERunChecked false); (1, EStarted); (1, EState 1 SRunning); (1, ELaunch true);
+  (9, ECmdExit 1 3%Z); (1, EWaitReturn 3%Z); (1, EExitCode 3%Z); (1, ERestartDecision true); (1, EState 1 SRestarting);
+  (1, EBackoffWait 1); (1, EBackoffElapsed); (1, EState 1 SRunning); (1, ELaunch true);
+  (2, EApiBegin (OpStop 1)); (2, ERegGet 1 (Some 1)); (2, EStopChecked 1 (Some 1)); (2, ENoRestart 1); (2, EStopEnter 1 true);
+  (2, EStopRunning 1); (2, EState 1 STerminating); (2, ESignal 1 15%Z false); (2, EStopReturn 1); (2, EApiReturn true);
+  (9, ECmdExit 1 (-1)%Z); (1, EWaitReturn (-1)%Z); (1, EExitCode (-1)%Z); (1, ERestartDecision false);
+  (1, EProcEnd 1 SCompleted); (1, EState 1 SCompleted); (1, EProcEnded 1 SCompleted); (1, ERunReturned (-1)%Z);
+  (1, EDoneAdd 1); (1, EInstDone); (1, EInstExit); (1, ERegDel 1); (1, EInstGone); (0, ERunReturn 0%Z); (0, EApiReturn true)].
+
+Example C09_nonvacuous :
+  length example_evs = 45%nat /\
+  (exists s, accept (init example_cs false) example_evs = Some s) /\
+  C09_assumptions example_cs example_evs = true /\
+  w_dup (final_obs example_cs example_evs) = false /\
+  holds_C09 example_cs example_evs = true.
+Proof.
+  split; [reflexivity|]. split.
+  - destruct (accept (init example_cs false) example_evs) as [s|] eqn:E; [eauto|vm_compute in E; discriminate].
+  - repeat split; vm_compute; reflexivity.
+Qed.
